@@ -1,9 +1,14 @@
 pub mod common;
 
+pub mod recon;
+
+pub mod c01;
 pub mod c02;
+pub mod c08;
+pub mod c13;
 
 use crate::PropDef;
 
 pub fn all() -> Vec<PropDef> {
-    vec![c02::def()]
+    vec![c01::def(), c02::def(), c08::def(), c13::def()]
 }
